@@ -1125,12 +1125,13 @@ func init() {
 			c.ImmutableSliceConfig("C12.O4 usable-at-once/config-bytes", pkgProcess, "process service")
 			c.ParticipantsAsSent("C12") // every participant records the participant list the initiator sent
 			c.ParticipantCount("C12")
+			c.PolynomialFresh("C12")
 			c.ImportUnderSessionLock("C12")
 			c.ContributionRules("C13") // the account an instance stores is built from every participant's verified contribution, under the session lock
 			c.SessionLifecycle("C13")
 			c.IdentifierPure("C16")
 		},
-		Explanation: "Claimed clauses only: a generation starts only below [n != 0], [t <= n] and [n/2 < t]; the threshold checked is the one sent in prepare, recorded in the session (never changed) and stored with the account; distributed generation reports success only past error-free, non-empty commit replies, pairwise key equality over all participants and a successful recover+verify of every window of t confirmation signatures against the returned key; every created account is added to the in-memory cache, whose lookups and listing consult the overlay. See DESIGN.md §5 C12.",
+		Explanation: "Claimed clauses only: a generation starts only below [n != 0], [t <= n] and [n/2 < t]; the threshold checked is the one sent in prepare, recorded in the session (never changed) and stored with the account; distributed generation reports success only past error-free, non-empty commit replies, pairwise key equality over all participants and a successful recover+verify of every window of t confirmation signatures against the returned key; every created account is added to the in-memory cache, whose lookups and listing consult the overlay; every coefficient of the contributed polynomial is drawn by its own SetByCSPRNG call and only read afterwards. See DESIGN.md §5 C12.",
 		Trusted:     append([]string{"Shamir/BLS mathematics inside herumi (share consistency, threshold recovery) is not decided"}, commonTrusted...),
 	})
 }
